@@ -34,8 +34,17 @@ def replay_xh(path, fn_name, call_src, fixed=None, verbose=True):
     ns.update(nan=math.nan, inf=math.inf, math=math)
     ns[fn_name] = target
     ns[base] = target
+    try:                                   # the counterexample's arguments must evaluate on their own
+        import ast
+        node = ast.parse(call_src, mode="eval").body
+        assert isinstance(node, ast.Call) and isinstance(node.func, ast.Name)
+        args = [eval(compile(ast.Expression(a), "<arg>", "eval"), ns) for a in node.args]
+        kwargs = {k.arg: eval(compile(ast.Expression(k.value), "<arg>", "eval"), ns) for k in node.keywords}
+    except Exception:
+        print("replay: cannot evaluate the counterexample expression:\n" + traceback.format_exc())
+        return 3
     try:
-        r = eval(call_src, ns)
+        r = target(*args, **kwargs)
     except Exception:
         if verbose:
             print("replay: real code raised:\n" + traceback.format_exc())
